@@ -10,7 +10,7 @@ from fractions import Fraction
 import numpy as np
 import z3
 
-from .sym import Cx, Fl
+from .sym import CTX, Cx, Fl
 
 _NAMED = {
     "PI": math.pi,
@@ -204,7 +204,8 @@ def free_vars(arrs):
                 continue
             seen.add(i)
             if c.num_args() == 0 and c.decl().kind() == z3.Z3_OP_UNINTERPRETED:
-                names[c.decl().name()] = c
+                if c.decl().name() not in CTX.consts:  # PI, sqrt3, twiddle roots are constants, not inputs
+                    names[c.decl().name()] = c
             stack.extend(c.children())
 
     def sc(x):
